@@ -19,11 +19,18 @@ CONSTANTS MaxOps
 
 RECURSIVE OpSeqs(_)
 OpSeqs(n) == IF n = 0 THEN {<<>>} ELSE {<<o>> \o s : o \in BinOps, s \in OpSeqs(n - 1)}
-Forms == {"call", "index", "rindex", "dot", "arrow", "neg"}
+Forms == {"call", "index", "rindex", "dot", "arrow", "neg",
+          "neg_call", "neg_index", "neg_rindex", "neg_dot", "neg_arrow", "dot_call", "index_arrow", "call_call"}
+NegPost == [neg_call |-> "call", neg_index |-> "index", neg_rindex |-> "rindex", neg_dot |-> "dot", neg_arrow |-> "arrow"]
 
 Operand(i, form) ==
     CASE form = "plain" -> Var(i)
       [] form = "neg" -> IntL(-i - 1)
+      \* a negative literal directly in front of a postfix form: the sign belongs to the literal
+      [] form \in DOMAIN NegPost -> Post(NegPost[form], IntL(-i - 1))
+      [] form = "dot_call" -> Post("call", Post("dot", Var(i)))
+      [] form = "index_arrow" -> Post("arrow", Post("index", Var(i)))
+      [] form = "call_call" -> Post("call", Post("call", Var(i)))
       [] OTHER -> Post(form, Var(i))
 Operands(n, special, form) == [i \in 1 .. n |-> Operand(i, IF i = special THEN form ELSE "plain")]
 OperandToks(t) == Unparse(t, 5)
@@ -35,6 +42,7 @@ Cases ==
     { <<"seq", ops, 0, "plain">> : ops \in UNION {OpSeqs(n) : n \in 1 .. MaxOps} }
     \cup { <<"forms", ops, sp, f>> : ops \in OpSeqs(2), sp \in 1 .. 3, f \in Forms }
     \cup { <<"forms", ops, sp, f>> : ops \in OpSeqs(1), sp \in 1 .. 2, f \in Forms }
+    \cup { <<"forms", <<>>, 1, f>> : f \in Forms }
 
 VARIABLE cs
 Init == cs \in Cases
